@@ -12,6 +12,10 @@ MUTS = {
  'populate-before-objno': ('include/mp/solver-io.h', '  /// Clarify objectives\n  int objno', '  Base::OnHeader(h);\n  /// Clarify objectives\n  int objno'),
  'convert-before-names': ('include/mp/model-mgr-with-pb.h', '    ReadNames(filename_no_ext);\n\n    double read_time', '    ConvertModelAndUpdateBackend();\n    ReadNames(filename_no_ext);\n\n    double read_time'),
  'no-close': ('include/mp/sol.h', '  file.close();       // throws', '  // file.close();       // throws'),
+ 'close-file0-after-throw': ('src/posix.cc', '  file_ = 0;\n  if (result != 0)\n    FMT_THROW(SystemError(errno, "cannot close file"));\n', '  if (result != 0)\n    FMT_THROW(SystemError(errno, "cannot close file"));\n  file_ = 0;\n'),
+ 'close-does-not-throw': ('src/posix.cc', '  if (result != 0)\n    FMT_THROW(SystemError(errno, "cannot close file"));\n}\n\n// A macro used', '  (void)result;\n}\n\n// A macro used'),
+ 'suffix-ladder-narrowed': ('include/mp/backend-std.h', '    } catch (const std::exception& exc) {\n      AddWarning("SUFFIX_OUT"', '    } catch (const mp::Error& exc) {\n      AddWarning("SUFFIX_OUT"'),
+ 'suffix-call-outside-try': ('include/mp/backend-std.h', '      ReportStandardSuffixes();\n      ReportCustomSuffixes();\n    } catch', '      ReportStandardSuffixes();\n    } catch'),
  'new-throw-in-run': ('include/mp/backend-app.h', '    GetBackend().RunFromNLFile(\n', '    if (!nl_filename_.size()) throw 1;\n    GetBackend().RunFromNLFile(\n'),
 }
 def main():
